@@ -141,6 +141,10 @@ LONG_REQS = [
     b"x" * 1100 + b"titan://example.org/late.gmi;size=4\r\nDATA",          # over-long junk, then a well-formed upload
     b"gemini://example.org/" + b"a" * 1100 + b"gemini://example.org/second\r\n",  # over-long line, then a well-formed request
     b"gemini://example.org/" + b"a" * 1001 + b"\r\n",              # the longest legal line (1022 + CRLF), cut at CR|LF too
+    b"gemini://example.org/\xff\xfe\r\ngemini://example.org/second\r\n",       # refused line (not UTF-8), then a well-formed one
+    b"gemini://example.org/\xc3\r\ntitan://example.org/late.gmi;size=4\r\nDATA",  # ... then a well-formed upload
+    b"gemini://u@example.org/\r\ngemini://example.org/second\r\n",             # refused line (user-info), then a well-formed one
+    b"http://example.org/\r\ntitan://example.org/late.gmi;size=4\r\nDATA",
 ]
 
 
